@@ -913,3 +913,33 @@ def non_ascii_names(rng, spec):
         if rng.random() < 0.4:
             c["name"] = rng.choice(pool) + "_" + c["name"]
     return spec
+
+
+def off_grid(rng, spec):
+    """Numbers off every decimal grid (DESIGN 8.5p): work amounts scaled by 1/3, 2/3, 1/7, pi/4 or 10/7, positive skills
+    by 1/3, 2/3 or 7/9 (half of them), rates by 1/3 or 1/7, and - for half of the models with workplaces - component
+    sizes just above an integer fraction of a workplace capacity (k of them miss the capacity by k*delta < 0.001).
+    Zero stays zero; structure, flags, lists and steps are untouched. `rng` is a stream of its own, so that cases which
+    are not selected stay exactly as they were."""
+    import math
+    f = rng.choice([1 / 3.0, 2 / 3.0, 1 / 7.0, math.pi / 4, 10 / 7.0])
+    for t in spec["tasks"]:
+        t["work"] = t["work"] * f
+    g = rng.choice([1 / 3.0, 2 / 3.0, 7 / 9.0])
+    res = [w for tm in spec["teams"] for w in tm["workers"]] + [x for wp in spec["wps"] for x in wp["facilities"]]
+    for r in res:
+        for name in sorted(r["skills"]):
+            if r["skills"][name] > 0 and rng.random() < 0.5:
+                r["skills"][name] = r["skills"][name] * g
+        r["cost"] = r["cost"] * rng.choice([1.0, 1 / 3.0, 1 / 7.0])
+    if spec["wps"] and spec["comps"] and rng.random() < 0.5:
+        cap = rng.choice([wp["max_space"] for wp in spec["wps"]])
+        if cap > 0:
+            k = rng.choice([2, 3])
+            delta = rng.choice([1e-4, 3e-4, 1e-6, 4e-5])
+            for c in spec["comps"]:
+                if c.get("space", 0) > 0:
+                    c["space"] = cap / k + delta
+    spec["sim"]["max_time"] = int(spec["sim"]["max_time"] * 4)
+    spec["off_grid"] = True
+    return spec
